@@ -30,6 +30,21 @@ var readOnly = map[string]bool{
 	"bytes.NewReader": true, "strconv.Atoi": true, "strconv.ParseUint": true, "strings.ToLower": true, "strings.TrimLeft": true,
 	"strings.TrimSuffix": true, "strings.Compare": true, "(*strings.Builder).WriteRune": true, "(*strings.Builder).String": true, "(*strings.Builder).Len": true,
 	"fmt.Errorf": true, "fmt.Sprintf": true,
+	"encoding/json.Valid": true, "encoding/json.Unmarshal": true, "encoding/json.NewDecoder": true,
+	"bytes.Equal": true, "bytes.EqualFold": true, "bytes.HasPrefix": true, "bytes.HasSuffix": true, "bytes.Index": true, "bytes.IndexByte": true,
+	"bytes.IndexAny": true, "bytes.IndexRune": true, "bytes.LastIndex": true, "bytes.LastIndexByte": true, "bytes.Contains": true, "bytes.ContainsAny": true,
+	"bytes.ContainsRune": true, "bytes.Count": true, "bytes.Compare": true, "bytes.ToUpper": true, "bytes.ToLower": true,
+	"bytes.NewBufferString": true, "unicode/utf8.Valid": true, "unicode/utf8.DecodeRune": true, "unicode/utf8.DecodeLastRune": true, "unicode/utf8.RuneCount": true,
+	"strconv.ParseInt": true, "strconv.ParseFloat": true, "strconv.ParseBool": true, "strconv.Quote": true, "strconv.Unquote": true,
+	"(*regexp.Regexp).FindSubmatchIndex": true, "(*regexp.Regexp).FindIndex": true, "(*regexp.Regexp).Find": true, "(*regexp.Regexp).FindAllSubmatch": true,
+	"strings.TrimRight": true, "strings.TrimSpace": true, "strings.TrimPrefix": true, "strings.Trim": true, "strings.EqualFold": true, "strings.HasPrefix": true, "strings.HasSuffix": true,
+	"errors.New": true,
+}
+
+// aliasReturning lists read-only stdlib functions whose []byte result aliases their first argument.
+var aliasReturning = map[string]bool{
+	"bytes.TrimSpace": true, "bytes.Trim": true, "bytes.TrimLeft": true, "bytes.TrimRight": true, "bytes.TrimPrefix": true, "bytes.TrimSuffix": true,
+	"bytes.TrimFunc": true, "bytes.TrimLeftFunc": true, "bytes.TrimRightFunc": true,
 }
 
 // analyseBuf checks the append-only discipline of fn with respect to parameter index pi (a []byte).
@@ -283,8 +298,14 @@ func (c *Ctx) inputRO(fn *ssa.Function, pi int, depth int, seen map[*ssa.Functio
 						}
 					}
 				case *ssa.Call:
-					if f := x.Call.StaticCallee(); f != nil && origin(f).String() == "(*regexp.Regexp).FindSubmatch" && alias[x.Call.Args[1]] {
-						mark(x) // [][]byte aliasing the subject
+					if f := x.Call.StaticCallee(); f != nil {
+						name := origin(f).String()
+						if (name == "(*regexp.Regexp).FindSubmatch" || name == "(*regexp.Regexp).FindAllSubmatch" || name == "(*regexp.Regexp).Find") && len(x.Call.Args) > 1 && alias[x.Call.Args[1]] {
+							mark(x) // [][]byte aliasing the subject
+						}
+						if aliasReturning[name] && len(x.Call.Args) > 0 && alias[x.Call.Args[0]] {
+							mark(x)
+						}
 					}
 				case *ssa.IndexAddr:
 					if alias[x.X] {
@@ -330,7 +351,7 @@ func (c *Ctx) inputRO(fn *ssa.Function, pi int, depth int, seen map[*ssa.Functio
 						c.add("undecided", "C17.ro", fn, x.Pos(), "input passed to dynamic callee")
 					case inRepo(callee):
 						c.inputRO(origin(callee), ai, depth+1, seen)
-					case readOnly[origin(callee).String()] || appendOnlyReads(origin(callee).String()):
+					case readOnly[origin(callee).String()] || aliasReturning[origin(callee).String()]:
 					default:
 						c.add("undecided", "C17.ro", fn, x.Pos(), "input passed to "+origin(callee).String()+" (no read-only summary)")
 					}
@@ -340,7 +361,6 @@ func (c *Ctx) inputRO(fn *ssa.Function, pi int, depth int, seen map[*ssa.Functio
 	}
 }
 
-func appendOnlyReads(name string) bool { return false }
 
 // isLenOfBuf reports whether v is len(param), or Len() of a bytes.Buffer freshly created from param
 // (same block as bytes.NewBuffer(param), no other use of the buffer in between): both denote the number of
